@@ -692,9 +692,8 @@ class Drop:
         p_list = list(p)
         schema = None
         if len(p) > 4:
-            if "." in p:
-                schema = p_list[-3]
-                table_name = p_list[-1]
+            schema = p_list[-3]
+            table_name = p_list[-1]
         else:
             table_name = p_list[-1]
         p[0] = {"schema": schema, "table_name": table_name}
@@ -1358,11 +1357,11 @@ class BaseSQL(
         project = None
 
         if len(p) > 3:
-            if "." in p:
-                schema = p_list[-3]
-                table_name = p_list[-1]
-                if len(p) == 6:
-                    project = p_list[1]
+            # (by position: a DOT token may hold more than one dot, as in T-SQL db..table)
+            schema = p_list[-3]
+            table_name = p_list[-1]
+            if len(p) == 6:
+                project = p_list[1]
         else:
             table_name = p_list[-1]
             schema = None
